@@ -12,9 +12,9 @@ LEVEL_TEXT = ('Full: every clause of C18 is a Coq theorem over R about the kerne
               'derivatives across every switch for min/max/abs/zmax/smooth_linear/friction). Binary64 behaviour is covered by the '
               'correspondence (generated kernels and proved derivative formulas executed in PrimFloat vs the implementation and jax.grad).')
 TECHNIQUE = 'Coq proof (Reals + Coquelicot) over kernels regenerated from the Python AST; vm_compute/PrimFloat correspondence'
-GEN = ['SmoothFunctions', 'Math', 'Friction', 'MortarContact']
-TARGETS = ['proofs/L_C18.vo', 'proofs/L_C18x.vo', 'model/M_C18.vo']
-COQ_FILES = ['base/Num.v', 'base/Piecewise.v', 'model/M_C18.v', 'proofs/L_C18.v', 'proofs/L_C18x.v', 'props/P_C18.v']
+GEN = ['SmoothFunctions', 'Math', 'Friction', 'MortarContact', 'Surface', 'EdgeCpp']
+TARGETS = ['proofs/L_C18.vo', 'proofs/L_C18b.vo', 'proofs/L_C18x.vo', 'model/M_C18.vo']
+COQ_FILES = ['base/Num.v', 'base/Piecewise.v', 'model/M_C18.v', 'proofs/L_C18.v', 'proofs/L_C18b.v', 'proofs/L_C18x.v', 'props/P_C18.v']
 TRUSTED = ['Coq 8.16.1 kernel + vm_compute (no native_compute)',
            'tools/vlib/py2coq.py translator (Python ast -> Gallina over Num T), cross-checked by running the generated kernels at binary64 against the implementation',
            'correspondence harness: float<->(mantissa,exponent) exchange, tolerance rule 16 ulp of max(|args|,|value|)',
@@ -24,7 +24,7 @@ ASSUMPTIONS = ['exact real arithmetic in theorems', 'jax.grad of the primitives 
 RULE = ('inputs: seeded random arguments over ten decades of magnitude and width, plus streams placed exactly on, and one ulp '
         'either side of, every branch switch (dyadic so both sides are exact); a case is non-trivial when it lies inside a '
         'smoothing band or within 2 ulp of a switch; distinct = distinct argument tuples')
-IMPORTS = ['From OV.gen Require Import Gen_SmoothFunctions Gen_Math Gen_Friction Gen_MortarContact.',
+IMPORTS = ['From OV.gen Require Import Gen_SmoothFunctions Gen_Math Gen_Friction Gen_MortarContact Gen_Surface Gen_EdgeCpp.',
            'From OV.model Require Import M_C18.']
 
 ULPS = 16.0
@@ -100,7 +100,22 @@ def gen_cases(ctx):
         xi = (r.uniform(0, 1) if mode == 0 else l if mode == 1 else 1.0 - l if mode == 2 else
               nextafter(l, r.random() < 0.5) if mode == 3 else nextafter(1.0 - l, r.random() < 0.5) if mode == 4 else r.choice([0.0, 1.0]))
         sl.append((xi, l))
-    return dict(two=two, one=one, fr=fr, sl=sl)
+    # widths at and below the 1e-14 clamp (safeTol), zero and negative widths: values and bounds only (no C1 claim there)
+    tiny = []
+    for _ in range(ctx.n(60, 600)):
+        eps = r.choice([1e-14, nextafter(1e-14, True), nextafter(1e-14, False), 5e-15, 1e-15, 1e-300, 0.0, -1.0])
+        x = r.choice([0.0, 1.0, -1.0, r.uniform(-1, 1) * 1e-13, r.uniform(-1, 1)])
+        y = x + r.choice([0.0, 1e-14, -1e-14, 5e-15, -3e-15, 1e-15, r.uniform(-2e-14, 2e-14), 1.0])
+        tiny.append((x, y, eps))
+    # smooth_linear beyond its documented domain (l > 1/2): values only -- the function is discontinuous there (proved)
+    slbig = [(r.choice([r.uniform(0, 1), 0.0, 1.0, 0.5]), r.uniform(0.5000001, 1.5)) for _ in range(ctx.n(30, 300))]
+    # EdgeCpp.smoothstep around and exactly on its switches 0 and 1
+    ss = []
+    for _ in range(ctx.n(60, 600)):
+        mode = r.randrange(6)
+        ss.append(r.uniform(0, 1) if mode == 0 else r.uniform(-2, 3) if mode == 1 else r.choice([0.0, 1.0, -0.0]) if mode == 2 else
+                  nextafter(r.choice([0.0, 1.0]), r.random() < 0.5) if mode == 3 else r.choice([-1, 1]) * 10.0 ** r.uniform(-12, 3) if mode == 4 else 1.0 + r.uniform(-1, 1) * 1e-9)
+    return dict(two=two, one=one, fr=fr, sl=sl, tiny=tiny, slbig=slbig, ss=ss)
 
 
 def impl_eval(cases):
@@ -122,6 +137,7 @@ def impl_eval(cases):
     out['dmin_dx'] = v3(jax.grad(S.min, 0))
     out['dmin_dy'] = v3(jax.grad(S.min, 1))
     out['dmax_dx'] = v3(jax.grad(S.max, 0))
+    out['dmax_dy'] = v3(jax.grad(S.max, 1))
     out['abs'] = v2(S.abs, one)
     out['dabs'] = v2(jax.grad(S.abs, 0), one)
     out['zmax'] = v2(S.zmax, one)
@@ -132,7 +148,115 @@ def impl_eval(cases):
     out['dfric0'], out['dfric1'] = gf
     out['slin'] = v2(MortarContact.smooth_linear, sl)
     out['dslin'] = v2(jax.grad(MortarContact.smooth_linear, 0), sl)
+    tiny = jnp.array(cases['tiny'])
+    out['tmin'] = jax.jit(jax.vmap(S.min))(tiny[:, 0], tiny[:, 1], tiny[:, 2])
+    out['tmax'] = jax.jit(jax.vmap(S.max))(tiny[:, 0], tiny[:, 1], tiny[:, 2])
+    slb = jnp.array(cases['slbig'])
+    out['slbig'] = v2(MortarContact.smooth_linear, slb)
+    from optimism.contact import EdgeCpp
+    ss = jnp.array(cases['ss'])
+    out['sstep'] = jax.jit(jax.vmap(EdgeCpp.smoothstep))(ss)
+    out['dsstep'] = jax.jit(jax.vmap(jax.grad(EdgeCpp.smoothstep)))(ss)
     return {k: [float(x) for x in v] for k, v in out.items()}
+
+
+def extra_conclusions(ctx, cases, impl):
+    """L2 streams that do not need the model: single un-jitted calls vs the batched jit, float32 inputs, midpoint convexity and
+    gradient monotonicity of the friction potential on the implementation, symmetry of min/max, widths at/below the clamp"""
+    import jax
+    import jax.numpy as jnp
+    import numpy as onp
+    from optimism import SmoothFunctions as S
+    from optimism.contact import Friction, MortarContact, EdgeCpp
+    r = ctx.rng('extra')
+    n = 0
+    # (a) one call at a time, no vmap, no jit: same values and derivatives as the batched evaluation (up to FMA-level rounding)
+    for i in r.sample(range(len(cases['two'])), min(ctx.n(40, 300), len(cases['two']))):
+        x, y, e = cases['two'][i]
+        sc = max(abs(x), abs(y), e)
+        vals = dict(min=float(S.min(x, y, e)), max=float(S.max(x, y, e)), dmin_dx=float(jax.grad(S.min, 0)(x, y, e)),
+                    dmin_dy=float(jax.grad(S.min, 1)(x, y, e)), dmax_dx=float(jax.grad(S.max, 0)(x, y, e)), dmax_dy=float(jax.grad(S.max, 1)(x, y, e)))
+        n += 1
+        for k_, v in vals.items():
+            t = ULPS * math.ulp(sc) if k_ in ('min', 'max') else 64 * math.ulp(1.0) * max(1.0, sc / max(e, 1e-14))
+            if far(v, impl[k_][i], t):
+                ctx.fail('conclusion', 'single call %s(%r,%r,%r) = %r differs from the batched jit evaluation %r' % (k_, x, y, e, v, impl[k_][i]),
+                         case=dict(fn='single', which=k_, x=x, y=y, eps=e), concrete=True)
+        # symmetry in the arguments (values bit for bit: the expressions are symmetric up to commutativity of + and *)
+        if far(float(S.min(y, x, e)), vals['min'], 2 * math.ulp(sc)) or far(float(S.max(y, x, e)), vals['max'], 2 * math.ulp(sc)):
+            ctx.fail('conclusion', 'smooth min/max not symmetric at (%r,%r,%r)' % (x, y, e), case=dict(fn='sym', x=x, y=y, eps=e), concrete=True)
+    for i in r.sample(range(len(cases['one'])), min(ctx.n(30, 200), len(cases['one']))):
+        x, e = cases['one'][i]
+        n += 1
+        for k_, f in (('abs', S.abs), ('zmax', S.zmax)):
+            if far(float(f(x, e)), impl[k_][i], ULPS * math.ulp(max(abs(x), e))):
+                ctx.fail('conclusion', 'single call %s(%r,%r) differs from the batched jit evaluation' % (k_, x, e), case=dict(fn='single', which=k_, x=x, eps=e), concrete=True)
+        if far(float(S.abs(-x, e)), float(S.abs(x, e)), 2 * math.ulp(max(abs(x), e))):
+            ctx.fail('conclusion', 'smooth abs not even at x=%r eps=%r' % (x, e), case=dict(fn='even', x=x, eps=e), concrete=True)
+    # (b) float32 inputs: the bounds hold at float32 accuracy and the result stays float32 / finite
+    f32 = onp.float32
+    for i in r.sample(range(len(cases['two'])), min(ctx.n(60, 400), len(cases['two']))):
+        x, y, e = (float(f32(v)) for v in cases['two'][i])
+        if not (e > 1e-6 * max(abs(x), abs(y), 1e-30)) or not e > 1e-30:
+            continue
+        n += 1
+        vmin, vmax = S.min(f32(x), f32(y), f32(e)), S.max(f32(x), f32(y), f32(e))
+        t = 8 * float(onp.finfo(f32).eps) * max(abs(x), abs(y), e)
+        lo, hi = min(x, y), max(x, y)
+        bad = []
+        if str(vmin.dtype) != 'float32' or str(vmax.dtype) != 'float32':
+            bad.append('result dtype %s' % vmin.dtype)
+        vmin, vmax = float(vmin), float(vmax)
+        if not (lo - e / 4 - t <= vmin <= lo + t):
+            bad.append('min %r outside [min - eps/4, min]' % vmin)
+        if not (hi - t <= vmax <= hi + e / 4 + t):
+            bad.append('max %r outside [max, max + eps/4]' % vmax)
+        for b in bad:
+            ctx.fail('conclusion', 'float32 smooth min/max at x=%r y=%r eps=%r: %s' % (x, y, e, b), case=dict(fn='f32', x=x, y=y, eps=e), concrete=True)
+    # (c) friction potential on the implementation: midpoint convexity, monotone gradient along segments, value symmetry
+    fric = lambda s, mu, sr: Friction.compute_friction_energy_from_perp_slip(s, Friction.Params(mu, sr))
+    A, B, MU, SR = [], [], [], []
+    for _ in range(ctx.n(150, 1500)):
+        sr = 10.0 ** r.uniform(-8, 1)
+        mu = r.choice([0.3, 1.0, r.uniform(0, 2)])
+        pt = lambda: (lambda rad, ang: (rad * math.cos(ang), rad * math.sin(ang)))(sr * r.choice([0.0, 1.0, r.uniform(0, 1), r.uniform(1, 4), r.uniform(0.99, 1.01)]), r.uniform(0, 2 * math.pi))
+        a, b = pt(), pt()
+        if r.random() < 0.3:      # straddle the switch radius along a ray, end point exactly on the circle
+            a = (sr, 0.0)
+            b = (sr * r.uniform(0, 2), 0.0)
+        A.append(a); B.append(b); MU.append(mu); SR.append(sr)
+    A, B, MU, SR = jnp.array(A), jnp.array(B), jnp.array(MU), jnp.array(SR)
+    fv = jax.jit(jax.vmap(fric))
+    gv = jax.jit(jax.vmap(jax.grad(fric)))
+    fa, fb, fm = fv(A, MU, SR), fv(B, MU, SR), fv(0.5 * (A + B), MU, SR)
+    ga, gb = gv(A, MU, SR), gv(B, MU, SR)
+    for i in range(len(MU)):
+        n += 1
+        sc = float(MU[i]) * max(float(jnp.linalg.norm(A[i])), float(jnp.linalg.norm(B[i])), float(SR[i]))
+        case = dict(fn='friction_pair', a=[float(v) for v in A[i]], b=[float(v) for v in B[i]], mu=float(MU[i]), sReg=float(SR[i]))
+        if not float(fm[i]) <= 0.5 * (float(fa[i]) + float(fb[i])) + 16 * math.ulp(max(sc, 1e-300)):
+            ctx.fail('conclusion', 'friction potential not midpoint-convex between %r and %r (mu=%r sReg=%r): f(mid)=%r > (f(a)+f(b))/2=%r'
+                     % (case['a'], case['b'], case['mu'], case['sReg'], float(fm[i]), 0.5 * (float(fa[i]) + float(fb[i]))), case=case, concrete=True)
+        # convex + C1  =>  (grad f(b) - grad f(a)) . (b - a) >= 0 and the tangent at a is a lower bound at b
+        d = B[i] - A[i]
+        mono = float(jnp.dot(gb[i] - ga[i], d))
+        if not mono >= -64 * math.ulp(max(float(MU[i]) * float(jnp.linalg.norm(d)), 1e-300)):
+            ctx.fail('conclusion', 'friction force (jax.grad) not monotone between %r and %r: (g(b)-g(a)).(b-a) = %r' % (case['a'], case['b'], mono), case=case, concrete=True)
+        tang = float(fa[i]) + float(jnp.dot(ga[i], d))
+        if not tang <= float(fb[i]) + 64 * math.ulp(max(sc, 1e-300)):
+            ctx.fail('conclusion', 'tangent of the friction potential at %r is not a lower bound at %r: %r > %r' % (case['a'], case['b'], tang, float(fb[i])), case=case, concrete=True)
+    # (d) widths at and below the clamp
+    for i, (x, y, e) in enumerate(cases['tiny']):
+        n += 1
+        for b in concl_two(x, y, e, impl['tmin'][i], impl['tmax'][i]):
+            ctx.fail('conclusion', 'smooth min/max at the width clamp x=%r y=%r eps=%r: %s' % (x, y, e, b), case=dict(fn='minmax', x=x, y=y, eps=e), concrete=True)
+    # (e) smoothstep: range and monotone on the implementation
+    for i, x in enumerate(cases['ss']):
+        n += 1
+        v, dv = impl['sstep'][i], impl['dsstep'][i]
+        if not (0.0 <= v <= 1.0) or not (dv >= 0.0) or (x <= 0 and v != 0.0) or (x >= 1 and v != 1.0):
+            ctx.fail('conclusion', 'smoothstep(%r) = %r, derivative %r: outside [0,1] / not monotone / not exact outside [0,1]' % (x, v, dv), case=dict(fn='smoothstep', x=x), concrete=True)
+    return n
 
 
 def model_exprs(cases, kernels=True):
@@ -140,7 +264,7 @@ def model_exprs(cases, kernels=True):
     K = (lambda t: t) if kernels else (lambda t: 'PrimFloat.nan')
     for (x, y, e) in cases['two']:
         a = '%s %s %s' % (C.cf(x), C.cf(y), C.cf(e))
-        ex.append('fencs [%s; %s; d_smin_dx %s; d_smin_dy %s; d_smax_dx %s]' % (K('s_min ' + a), K('s_max ' + a), a, a, a))
+        ex.append('fencs [%s; %s; d_smin_dx %s; d_smin_dy %s; d_smax_dx %s; d_smax_dy %s]' % (K('s_min ' + a), K('s_max ' + a), a, a, a, a))
     for (x, e) in cases['one']:
         a = '%s %s' % (C.cf(x), C.cf(e))
         ex.append('fencs [%s; d_sabs %s; %s; d_zmax %s]' % (K('s_abs ' + a), a, K('zmax ' + a), a))
@@ -150,7 +274,21 @@ def model_exprs(cases, kernels=True):
     for (xi, l) in cases['sl']:
         a = '%s %s' % (C.cf(xi), C.cf(l))
         ex.append('fencs [%s; d_slin %s]' % (K('smooth_linear ' + a), a))
+    for (x, y, e) in cases['tiny']:
+        a = '%s %s %s' % (C.cf(x), C.cf(y), C.cf(e))
+        ex.append('fencs [%s; %s]' % (K('s_min ' + a), K('s_max ' + a)))
+    for (xi, l) in cases['slbig']:
+        ex.append('fencs [%s]' % K('smooth_linear %s %s' % (C.cf(xi), C.cf(l))))
+    for x in cases['ss']:
+        ex.append('fencs [%s; d_sstep %s]' % (K('smoothstep ' + C.cf(x)), C.cf(x)))
     return ex
+
+
+def far(a, b, t):
+    """NaN-safe 'differs by more than t' (a NaN on either side counts as a difference unless both are NaN)"""
+    if a != a or b != b:
+        return not (a != a and b != b)
+    return not abs(a - b) <= t
 
 
 def tol(*vals):
@@ -203,7 +341,7 @@ def concl_fric(s0, s1, mu, sr, v):
         bad.append('friction energy negative: %.3g' % v)
     if not v <= mu * nrm + t:
         bad.append('friction energy above Coulomb value by %.3g' % (v - mu * nrm))
-    if nrm > sr * (1 + 1e-12) and abs(v - mu * (nrm - sr / 2)) > t:
+    if nrm > sr * (1 + 1e-12) and far(v, mu * (nrm - sr / 2), t):
         bad.append('friction energy not mu(|s|-sReg/2) outside the switch radius')
     return bad
 
@@ -240,8 +378,10 @@ def correspondence(ctx, model_ok):
         if xi < l or xi > 1 - l or abs(xi - l) < 1e-12 or abs(xi - 1 + l) < 1e-12:
             distinct.add(('sl', xi, l))
     # symmetry of min/max on a swapped evaluation is covered through the model comparison below (the model is proved symmetric)
+    nextra = extra_conclusions(ctx, cases, impl)
+    ctx.count('evaluations', nextra)
     ctx.count('distinct_nontrivial', len(distinct))
-    ctx.count('conclusion_checks', total)
+    ctx.count('conclusion_checks', total + nextra)
     ctx.sample(dict(fn='min', x=cases['two'][0][0], y=cases['two'][0][1], eps=cases['two'][0][2], impl=impl['min'][0]))
     ctx.sample(dict(fn='friction', args=cases['fr'][0], impl=impl['fric'][0]))
     # ---- L1: regenerated kernels and proved derivative formulas, executed at binary64, against the implementation.
@@ -275,8 +415,8 @@ def correspondence(ctx, model_ok):
         if True:   # also ON the switches: the C1 theorem fixes the derivative there, and jax.grad must deliver it
             ds = max(1.0, sc / e * 2.3e-16 / 2.2e-16)
             dt = 64 * math.ulp(1.0) * max(1.0, sc / max(e, 1e-14))
-            for nm, j, key in (('dmin_dx', 2, 'dmin_dx'), ('dmin_dy', 3, 'dmin_dy'), ('dmax_dx', 4, 'dmax_dx')):
-                if abs(v[j] - impl[key][i]) > dt:
+            for nm, j, key in (('dmin_dx', 2, 'dmin_dx'), ('dmin_dy', 3, 'dmin_dy'), ('dmax_dx', 4, 'dmax_dx'), ('dmax_dy', 5, 'dmax_dy')):
+                if far(v[j], impl[key][i], dt):
                     mism += 1
                     ctx.fail('correspondence', 'proved derivative %s(%r,%r,%r) = %r but jax.grad of the implementation gives %r' % (nm, x, y, e, v[j], impl[key][i]),
                              case=dict(fn=nm, args=[x, y, e], model=v[j], impl=impl[key][i]), concrete=True)
@@ -287,10 +427,10 @@ def correspondence(ctx, model_ok):
         cmp('zmax', (x, e), v[2], impl['zmax'][i], sc)
         dt = 64 * math.ulp(1.0) * max(1.0, sc / max(e, 1e-14))
         if True:
-            if abs(v[1] - impl['dabs'][i]) > dt:
+            if far(v[1], impl['dabs'][i], dt):
                 ctx.fail('correspondence', 'proved derivative d_sabs(%r,%r) = %r but jax.grad gives %r' % (x, e, v[1], impl['dabs'][i]),
                          case=dict(fn='dabs', args=[x, e]), concrete=True)
-            if abs(v[3] - impl['dzmax'][i]) > dt:
+            if far(v[3], impl['dzmax'][i], dt):
                 ctx.fail('correspondence', 'proved derivative d_zmax(%r,%r) = %r but jax.grad gives %r' % (x, e, v[3], impl['dzmax'][i]),
                          case=dict(fn='dzmax', args=[x, e]), concrete=True)
     for i, (s0, s1, mu, sr) in enumerate(cases['fr']):
@@ -299,16 +439,29 @@ def correspondence(ctx, model_ok):
         cmp('friction', (s0, s1, mu, sr), v[0], impl['fric'][i], mu * max(nrm, sr))
         if True:
             for j, key in ((1, 'dfric0'), (2, 'dfric1')):
-                if abs(v[j] - impl[key][i]) > 1e-9 * max(1.0, mu):
+                if far(v[j], impl[key][i], 1e-9 * max(1.0, mu)):
                     ctx.fail('correspondence', 'proved friction gradient component %d at %r = %r but jax.grad gives %r' % (j - 1, (s0, s1, mu, sr), v[j], impl[key][i]),
                              case=dict(fn='dfric', args=[s0, s1, mu, sr]), concrete=True)
     for i, (xi, l) in enumerate(cases['sl']):
         v = C.dec_floats(res[k]); k += 1
         cmp('smooth_linear', (xi, l), v[0], impl['slin'][i], 1.0)
         if True:
-            if abs(v[1] - impl['dslin'][i]) > 1e-9 * max(1.0, 1 / l * 1e-4):
+            if far(v[1], impl['dslin'][i], 1e-9 * max(1.0, 1 / l * 1e-4)):
                 ctx.fail('correspondence', 'proved derivative d_slin(%r,%r) = %r but jax.grad gives %r' % (xi, l, v[1], impl['dslin'][i]),
                          case=dict(fn='dslin', args=[xi, l]), concrete=True)
+    for i, (x, y, e) in enumerate(cases['tiny']):
+        v = C.dec_floats(res[k]); k += 1
+        sc = max(abs(x), abs(y), abs(e), 1e-14)
+        cmp('min (width at/below clamp)', (x, y, e), v[0], impl['tmin'][i], sc)
+        cmp('max (width at/below clamp)', (x, y, e), v[1], impl['tmax'][i], sc)
+    for i, (xi, l) in enumerate(cases['slbig']):
+        v = C.dec_floats(res[k]); k += 1
+        cmp('smooth_linear (l > 1/2)', (xi, l), v[0], impl['slbig'][i], 2.0)
+    for i, x in enumerate(cases['ss']):
+        v = C.dec_floats(res[k]); k += 1
+        cmp('smoothstep', (x,), v[0], impl['sstep'][i], 1.0)
+        if far(v[1], impl['dsstep'][i], 64 * math.ulp(1.0)):
+            ctx.fail('correspondence', 'proved derivative d_smoothstep(%r) = %r but jax.grad gives %r' % (x, v[1], impl['dsstep'][i]), case=dict(fn='dsstep', x=x), concrete=True)
     ctx.count('model_vs_impl_comparisons', k)
     ctx.count('model_vs_impl_mismatches', mism)
 
